@@ -4,7 +4,7 @@ import locks
 import poolrace
 
 PROP = "C05"
-SPEC = ["Bng.Spec.C05", "Bng.Spec.C05Epoch", "Bng.Spec.C05FreeList", "Bng.Spec.C05Cluster", "Bng.Spec.C16PppoeWhole", "Bng.Spec.C16PppoePark"] + ["Bng.Spec.C05Locks"]
+SPEC = ["Bng.Spec.C05", "Bng.Spec.C05Epoch", "Bng.Spec.C05FreeList", "Bng.Spec.C05Cluster", "Bng.Spec.C05ClusterFault", "Bng.Spec.C16PppoeWhole", "Bng.Spec.C16PppoePark"] + ["Bng.Spec.C05Locks"]
 MON = ["count", "total", "exhaustion", "lost"]
 # epoch (lease) allocator: Bng.LeaseSpec adds expiry/reclaimed to the pool monitor
 MON_EPOCH = ["count", "total", "exhaustion", "lost", "expiry", "reclaimed", "utilisation"]
@@ -39,6 +39,7 @@ ASSUME = [
     "small-scope exhaustive enumeration is part of the thorough tier only; bounds as listed in checks/c01.py (pools of 1-4 units, sequences of length 4-7); peercluster: random sequences only, nodes share peers and pool network",
     "free-list pools: the network is what net.ParseCIDR returns; the universe of a pool is what its constructor generates (dhcpv6 pools: the first 1000 units by design); 'usable' excludes addresses MarkUnavailable took off the free list; keys are mapped injectively to numbers",
     "epoch: expiry theorems assume byte(gracePeriod) <= 2 (finding D20 is the complement); Stats theorem assumes at least two slots (finding KF-epoch-tiny is the complement)",
+    "peercluster: the answer of a forwarded request can be made to fail after the peer's handler ran (op `fault resp|status|body on|once|off` on the in-memory RoundTripper: Do error, 502, truncated JSON body); the peer's handler itself always runs to its end (a failure BEFORE the handler changes nothing and is not driven); the resulting leak is the recorded finding KF-peerpool-lost-response",
     "each mutex-protected method is one atomic step; data races inside a critical section are not modelled",
     "bitmap theorems assume fewer than 2^64 units (GoodCfg); the complement is the recorded finding KF-bitmap-wide",
 ]
